@@ -306,7 +306,7 @@ example :
     (run (St.init 8)
       ([.spawn { kind := .task, outs := [.panic .strct] }] ++ List.replicate 7 (.item 0 false) ++
        [.queue 0 [.ok]] ++ List.replicate 7 (.item 0 false) ++
-       [.spawn { kind := .stop, outs := [.panic .other] }] ++ List.replicate 8 (.item 1 false))).map
+       [.spawn { kind := .stop, outs := [.panic .other] }] ++ List.replicate 9 (.item 1 false))).map
       (fun s => (s.allDone, s.t, s.c, s.stopFlag, s.stopCompleted, s.feed.length, s.items.map (·.runs), s.items.map (·.cret)))
     = some (true, 0, false, true, true, 2, [2, 1], [none, some .panicMsg]) := by
   rfl
